@@ -9,7 +9,12 @@ from harness.progcase import check_program, case_json, case_from_json, program_m
 from hast.printer import to_source
 
 PROPERTY = 'C02'
-RULE = ('Hypothesis composite generator of well-typed programs using try/undo, try/stop, preempt (in try bodies and in '
+RULE = ('(a) Hypothesis RuleBasedStateMachine TimeTravelHistory: rules append segments to @is_you (plain code, try/undo and '
+        'try/stop with drawn bodies and handlers - prints, global/array mutation, preempt blocks, inline and conditional defeat, '
+        'plain/array-holding/preemptive/recursive/looping defeat helpers -, loops around a try left by fall-through, break or '
+        'continue from body/handler/preempt, ?? in 18 expression positions with callees that read or mutate the assignment '
+        'target, calls of you-helpers containing their own try); after every rule the program-so-far is compiled, run and '
+        'compared, so the explored history is the sequence of try blocks executed in one run. (b) Hypothesis composite generator of well-typed programs using try/undo, try/stop, preempt (in try bodies and in '
         '(recursive, preemptive) defeat functions), ?? in every expression position a you-function offers, and sequences '
         'of several try blocks in one run; argv drawn with the program; word sizes {2,3,4,8}; checked builds at a generous '
         'stack. Oracle: prophecy reference interpreter (choice points resolved by re-execution with a choice script: '
@@ -26,7 +31,7 @@ FEATURES = ALL_FEATURES - {'faults', 'bigvals', 'terminal'}
 
 
 def shards(tier):
-    return list(range(16))
+    return [('gen', k) for k in range(10)] + [('machine', k) for k in range(6)]
 
 
 def check_case(stats, case):
@@ -48,9 +53,16 @@ def check_case(stats, case):
     return None
 
 
-def run_shard(k, seed, tier):
+def run_shard(desc, seed, tier):
+    kind, k = desc
     stats = Stats()
-    n = 600 if tier == 'quick' else 8000
+    if kind == 'machine':
+        from props.c02_machine import run_machine
+        run_machine(derive_seed(seed, 'C02', 'machine', k), 150 if tier == 'quick' else 2500, stats, steps=8,
+                    shrink=(tier == 'thorough'))
+        stats.sample({'kind': 'state machine', 'rules': ['add_plain', 'add_try', 'add_speculation', 'add_loop_around_try', 'add_call_you']})
+        return stats
+    n = 900 if tier == 'quick' else 12000
     size = dict(main_stmts=12, funcs=5)
     strat = programs(features=FEATURES, size=size)
 
@@ -68,6 +80,9 @@ def run_shard(k, seed, tier):
 
 
 def replay(case):
+    if case.get('kind') == 'machine':
+        from props.c02_machine import replay_machine
+        return replay_machine(case)
     prog, vals, ws = case_from_json(case)
     try:
         r = check_case(Stats(), (prog, vals, ws))
